@@ -117,6 +117,7 @@ def checks (r : Row) : Bool := check1 r && check2 r && check3 r
 
 /-- the constraint texts this model was written against (compared with the current schema by `checks_link`) -/
 def assumedChecks : List (List Nat) := [
+  a!"check (row_num > 0)",
   a!"check (case when (val is null) then kind in (4, 5) else kind in (0, 1, 2, 3) end)",
   a!"check ((val_text is null) = (kind not in (0, 1)))",
   a!"check (case when (kind = 1) then (scale is not null) and (length(val_digits) > 0) and (val_digits not glob '*[^0-9]*') and ((su_digits is null) or ((length(su_digits) > 0) and (su_digits not glob '*[^0-9]*'))) else (coalesce(val_digits, su_digits, scale) is null) end)"
